@@ -24,11 +24,13 @@ pub struct Config {
     /// (0 = run to completion); used to shard one exploration over several processes
     pub frontier_target: usize,
     pub initial_work: Vec<WorkItem>,
+    /// keep up to this many path witnesses (inputs + observed outputs) in the report
+    pub n_witnesses: usize,
 }
 
 impl Default for Config {
     fn default() -> Config {
-        Config { name: String::new(), max_paths: 200_000, max_secs: 120.0, query_timeout_ms: 5_000, solver: "z3".into(), max_violations: 1, n_samples: 3, first_inputs: vec![], verbose: false, frontier_target: 0, initial_work: vec![] }
+        Config { name: String::new(), max_paths: 200_000, max_secs: 120.0, query_timeout_ms: 5_000, solver: "z3".into(), max_violations: 1, n_samples: 3, first_inputs: vec![], verbose: false, frontier_target: 0, initial_work: vec![], n_witnesses: 0 }
     }
 }
 
@@ -98,6 +100,7 @@ pub struct Report {
     pub query_timeout_ms: u64,
     pub frontier: Vec<WorkItem>,
     pub shards: u64,
+    pub witnesses: Vec<(Vec<i64>, Vec<u64>)>,
 }
 
 pub struct RunOut {
@@ -337,6 +340,9 @@ pub fn explore(cfg: &Config, sym: &dyn Fn(), native: Option<&dyn Fn()>) -> Repor
             }
             rep.obligations_checked += a.obligations.len() as u64 + a.bool_checks;
             rep.obligations_on_path += a.bool_checks;
+            if rep.witnesses.len() < cfg.n_witnesses && out.abort.is_none() && out.panic_msg.is_none() {
+                rep.witnesses.push((inputs_used.clone(), a.observations.clone()));
+            }
             if rep.samples.len() < cfg.n_samples {
                 rep.samples.push(Sample { inputs: inputs_used.clone(), trace_len: n, obligations: a.obligations.iter().map(|o| o.name.clone()).collect() });
             }
@@ -474,5 +480,6 @@ impl Report {
         l.extend(o.locations.iter().cloned());
         self.locations = l.into_iter().collect();
         for sm in &o.samples { if self.samples.len() < 4 { self.samples.push(sm.clone()); } }
+        for w in &o.witnesses { if self.witnesses.len() < 400 { self.witnesses.push(w.clone()); } }
     }
 }
